@@ -13,11 +13,18 @@ RULE = (
 STATES_MEANING = "distinct multisets of reporting rules observed under 'all rules'; transitions = scan executions of the real application"
 
 
+SIGMA_BQ3 = ["> a", ">", "> > a"]
+SIGMA_LI4 = ["- a", "  - a", "  a", ""]
+DEEP_FROM = 4  # documents of at least this many lines use the pruned configuration set
+
+
 def space(tier):
     if tier == "thorough":
         parts = [spaces.block_space("rule", 2), spaces.block_space("core", 3), spaces.block_space("wide", 2)]
+        parts += [spaces.ProductSpace("B(bq3,8)", SIGMA_BQ3, 8, minlen=4), spaces.ProductSpace("B(li4,7)", SIGMA_LI4, 7, minlen=4), spaces.ProductSpace("B(mix,4)", spaces.SIGMA_MIX, 4, minlen=4)]
     else:
         parts = [spaces.block_space("rule", 2), spaces.block_space("core", 1), spaces.block_space("wide", 1)]
+        parts += [spaces.ProductSpace("B(bq3,7)", SIGMA_BQ3, 7, minlen=4), spaces.ProductSpace("B(li4,5)", SIGMA_LI4, 5, minlen=4)]
     return spaces.UnionSpace(f"indep-{tier}", parts)
 
 
@@ -38,6 +45,8 @@ def evaluate(text):
     t = app.rule_table()
     rules = sorted(t)
     default = [r for r in rules if t[r]["enabled_default"]]
+    if text.count("\n") + 1 >= DEEP_FROM:
+        return _deep(text, res, rules, default)
     with app.Sandbox({"t.md": text}) as sb:
         alone = {}
         for r in rules:
@@ -75,6 +84,60 @@ def evaluate(text):
         res["nontrivial"] = len(who) >= 2
         res["states"] = [who]
         res["outcome"] = res["fail"][0] if res["fail"] else "union-holds:" + ",".join(who)
+    return res
+
+
+def _deep(text, res, rules, default):
+    """deep, narrow documents: 'all' and 'default' first; then each rule alone and default-minus-rule
+    only for the rules that report under either (a rule silent under both is not re-run alone)"""
+    with app.Sandbox({"t.md": text}) as sb:
+        got_all = _scan(sb, "all")
+        got_def = _scan(sb, "default")
+        res["feeds"] += 2
+        if got_all is None or got_def is None:
+            res["outcome"] = "scan-error"
+            res["count"] = {"skipped_scan_error": 1}
+            return res
+        who = sorted({k[2].lower() for k in got_all} | {k[2].lower() for k in got_def})
+        alone = {}
+        for r in who:
+            alone[r] = _scan(sb, f"only:{r}")
+            res["feeds"] += 1
+            if alone[r] is None:
+                res["outcome"] = "scan-error"
+                return res
+        fail = None
+        for name, got, rs in (("all", got_all, rules), ("default", got_def, default)):
+            exp = collections.Counter()
+            for r in who:
+                if r in rs:
+                    exp.update(alone[r])
+            if got != exp:
+                extra = sorted((got - exp).elements())
+                missing = sorted((exp - got).elements())
+                fail = (f"differs:{name}:" + "+".join(sorted({x[2] for x in extra + missing})), {"configuration": name, "only_with_the_set": extra, "only_alone": missing})
+                break
+        if fail is None:
+            for r in who:
+                if r not in default:
+                    continue
+                got = _scan(sb, f"default-minus:{r}")
+                res["feeds"] += 1
+                if got is None:
+                    continue
+                exp = collections.Counter()
+                for x in who:
+                    if x in default and x != r:
+                        exp.update(alone[x])
+                if got != exp:
+                    extra = sorted((got - exp).elements())
+                    missing = sorted((exp - got).elements())
+                    fail = (f"differs:default-minus:" + "+".join(sorted({x[2] for x in extra + missing})), {"configuration": f"default-minus:{r}", "only_with_the_set": extra, "only_alone": missing})
+                    break
+    res["nontrivial"] = len(who) >= 2
+    res["states"] = [tuple(who)]
+    res["fail"] = fail
+    res["outcome"] = fail[0] if fail else "union-holds(deep):" + ",".join(who)
     return res
 
 
